@@ -498,7 +498,7 @@ fn _unused(_: Spec) {}
 
 use crate::procsim::{proc_replay, ProcFault, ProcPlan, ProcRecord};
 
-const READ_KINDS: &[&str] = &["probe-enoent", "open-eacces", "open-emfile", "read-eio"];
+const READ_KINDS: &[&str] = &["probe-enoent", "open-eacces", "open-emfile", "read-eio", "read-eio-late"];
 const WRITE_KINDS: &[&str] = &["create-eacces", "create-erofs", "write-enospc", "write-eio", "write-short-enospc"];
 const MASKED_KINDS: &[&str] = &["eintr-read", "eintr-write", "short-read", "short-write", "stat-fd-fail", "stat-fd-inflate"];
 
